@@ -9,6 +9,7 @@ import (
 
 	metav1 "k8s.io/apimachinery/pkg/apis/meta/v1"
 	"k8s.io/apimachinery/pkg/apis/meta/v1/unstructured"
+	"k8s.io/apimachinery/pkg/labels"
 
 	"metacontroller/pkg/apis/metacontroller/v1alpha1"
 	commonv2 "metacontroller/pkg/controller/common/api/v2"
@@ -593,6 +594,289 @@ func VerifC16_SyncTarget() {
 	es.statusNil = statusNil
 	verifC16AssertBody(stored, es, "sync/stored-target")
 }
+
+// ---------------------------------------------------------------------------
+// attachments: recognised by controller owner reference AND marker only
+// ---------------------------------------------------------------------------
+
+func verifC16RelNames(req *v1.DecoratorHookRequest) map[string]bool {
+	out := map[string]bool{}
+	for _, group := range req.Attachments {
+		for name := range group {
+			out[name] = true
+		}
+	}
+	return out
+}
+
+// VerifC16_Attachments: a candidate ConfigMap "a" with symbolic owner
+// reference (UID, controller flag, or none) and symbolic marker (value or
+// none), next to "b" which certainly is this decorator's attachment. The hook
+// wants "c" (new) or nothing.
+func VerifC16_Attachments() {
+	w := env.NewWorld()
+	target := env.Thing("ns", "p", "puid")
+	w.Srv.Put("things", target)
+
+	// candidate "a"
+	a := env.ConfigMap("ns", "a", "ua", "va")
+	ownerKind := rt.Choice("a.owner", 3) // 0 none, 1 controller reference, 2 plain owner reference
+	ownerUID := ""
+	if ownerKind != 0 {
+		ownerUID = rt.String("a.owner-uid")
+		env.AddOwnerRef(a, env.OwnerRefMap("ex.com/v1", "Thing", "p", ownerUID, ownerKind == 1))
+	}
+	hasMarker := rt.Bool("a.has-marker")
+	markerVal := ""
+	if hasMarker {
+		markerVal = rt.String("a.marker")
+		env.SetAnnotation(a, verifDCMarker, markerVal)
+	}
+	// a decoy: the decorator's name in a *label*, not the annotation
+	if rt.Bool("a.marker-as-label") {
+		env.SetLabel(a, verifDCMarker, verifDCName)
+	}
+	w.Srv.Put("configmaps", a)
+	ours := false
+	if ownerKind == 1 {
+		if ownerUID == "puid" {
+			if hasMarker {
+				if markerVal == verifDCName {
+					ours = true
+				}
+			}
+		}
+	}
+
+	// "b": created earlier by this decorator for this target
+	b := verifDCApplied(env.ConfigMap("ns", "b", "", "vb"), target, "puid", verifDCName, "ub")
+	w.Srv.Put("configmaps", b)
+	// the same in another namespace cannot belong to a namespaced target
+	far := verifDCApplied(env.ConfigMap("elsewhere", "b", "", "vb"), target, "puid", verifDCName, "ufar")
+	w.Srv.Put("configmaps", far)
+
+	// the hook's wish
+	var desired []*unstructured.Unstructured
+	wantC := rt.Bool("hook-wants-c")
+	keepB := rt.Bool("hook-keeps-b")
+	cMarker := 0
+	if wantC {
+		c := env.ConfigMap("", "c", "", rt.String("c.value")) // no namespace: the target's
+		cMarker = rt.Choice("c.marker", 4)
+		switch cMarker {
+		case 1:
+			env.SetAnnotation(c, "unrelated", "x")
+		case 2: // the hook copies another decorator's marker
+			env.SetAnnotation(c, verifDCMarker, "someone-else")
+		case 3:
+			env.SetAnnotation(c, verifDCMarker, verifDCName)
+		}
+		desired = append(desired, c)
+	}
+	if keepB {
+		desired = append(desired, env.ConfigMap("ns", "b", "", "vb"))
+	}
+	sync := verifDCConstHook(&v1.DecoratorHookResponse{Attachments: desired})
+	d := verifNewDC(w, verifDCConfig{
+		Attachments: []verifDCAttachment{{Res: env.ConfigMapRes, Method: "InPlace"}},
+		Sync:        sync,
+	})
+	cached := d.SnapshotFromStore()
+	fp := verifDCFingerprintOf(cached)
+	children, _ := d.childInformers.Get(verifDCGVR(env.ConfigMapRes)).Lister().List(verifEverything{})
+	fpc := verifDCFingerprintOf(children)
+
+	// (1) getChildren alone
+	got, gerr := d.getChildren(cached[0])
+	rt.Assert(gerr == nil, "attachments/getchildren-error")
+	if gerr == nil {
+		n := 0
+		seenA, seenB := false, false
+		for _, group := range got {
+			for _, o := range group {
+				n++
+				if o.GetNamespace() == "ns" && o.GetName() == "a" {
+					seenA = true
+				}
+				if o.GetNamespace() == "ns" && o.GetName() == "b" {
+					seenB = true
+				}
+			}
+		}
+		rt.Assert(seenB, "attachments/own-attachment-not-listed")
+		if ours {
+			rt.Assert(seenA, "attachments/owned-and-marked-not-listed")
+			rt.Assert(n == 2, "attachments/listed-something-else")
+		} else {
+			rt.Assert(!seenA, "attachments/listed-without-controller-reference-and-marker")
+			rt.Assert(n == 1, "attachments/listed-something-else")
+		}
+		rt.Assert(len(got) == 1, "attachments/requested-group-missing")
+	}
+
+	// (2) the whole sync
+	err := d.syncParentObject(cached[0])
+	rt.Assert(err == nil, "attachments/sync-error")
+	fp.AssertUnchanged("attachments/cached-target-mutated")
+	fpc.AssertUnchanged("attachments/cached-attachment-mutated")
+	rt.Assert(len(sync.Calls) == 1, "attachments/hook-not-called-exactly-once")
+	if len(sync.Calls) == 1 {
+		names := verifC16RelNames(sync.Calls[0])
+		rt.Assert(names["b"], "attachments/own-attachment-not-sent-to-hook")
+		if ours {
+			rt.Cover("attachments/candidate-is-ours")
+			rt.Assert(names["a"], "attachments/owned-and-marked-not-sent-to-hook")
+			rt.Assert(len(names) == 2, "attachments/hook-sent-something-else")
+		} else {
+			rt.Cover("attachments/candidate-is-foreign")
+			rt.Assert(!names["a"], "attachments/foreign-object-sent-to-hook")
+			rt.Assert(len(names) == 1, "attachments/hook-sent-something-else")
+		}
+	}
+
+	wr := w.Srv.Writes()
+	rt.Observe("writes", len(wr))
+	nA, nB, nC := 0, 0, 0
+	for _, r := range wr {
+		rt.Assert(r.Resource == "configmaps" && r.NS == "ns", "attachments/write-outside-the-attachments-of-the-target")
+		rt.Assert(r.Accepted, "attachments/write-rejected-by-server")
+		switch r.Name {
+		case "a":
+			nA++
+			rt.Assert(ours, "attachments/foreign-object-written")
+			rt.Assert(r.Verb == "delete", "attachments/undesired-attachment-not-deleted-but-written")
+			if r.Verb == "delete" {
+				rt.Assert(r.UIDPre != nil && string(*r.UIDPre) == "ua", "attachments/delete-without-uid-precondition")
+			}
+		case "b":
+			nB++
+			rt.Assert(!keepB, "attachments/kept-attachment-written")
+			rt.Assert(r.Verb == "delete", "attachments/undesired-attachment-not-deleted-but-written")
+			if r.Verb == "delete" {
+				rt.Assert(r.UIDPre != nil && string(*r.UIDPre) == "ub", "attachments/delete-without-uid-precondition")
+			}
+		case "c":
+			nC++
+			rt.Assert(wantC, "attachments/created-although-not-desired")
+			rt.Assert(r.Verb == "create", "attachments/desired-attachment-verb")
+			if r.Verb == "create" {
+				rt.Assert(r.Body.GetAnnotations()[verifDCMarker] == verifDCName, "attachments/marker-not-stamped")
+				if cMarker == 1 {
+					rt.Assert(r.Body.GetAnnotations()["unrelated"] == "x", "attachments/annotation-of-desired-attachment-lost")
+				}
+				ref := metav1.GetControllerOf(r.Body)
+				rt.Assert(ref != nil, "attachments/created-without-controller-reference")
+				if ref != nil {
+					rt.Assert(ref.UID == "puid" && ref.Name == "p" && ref.Kind == "Thing" && ref.APIVersion == "ex.com/v1", "attachments/controller-reference-not-to-target")
+				}
+				rt.Assert(len(r.Body.GetOwnerReferences()) == 1, "attachments/extra-owner-references")
+				rt.Assert(r.Body.GetNamespace() == "ns", "attachments/created-outside-target-namespace")
+			}
+		default:
+			rt.Assert(false, "attachments/write-to-unexpected-name")
+		}
+	}
+	if ours {
+		rt.Assert(nA == 1, "attachments/undesired-own-attachment-not-deleted")
+	} else {
+		rt.Assert(nA == 0, "attachments/foreign-object-written")
+		// still there, untouched
+		st := w.Srv.Peek("configmaps", "ns", "a")
+		rt.Assert(st != nil, "attachments/foreign-object-gone")
+		if st != nil {
+			gen.Equal(st.Object, a.Object, "attachments/foreign-object-changed")
+		}
+	}
+	if keepB {
+		rt.Cover("attachments/kept")
+		rt.Assert(nB == 0, "attachments/kept-attachment-written")
+	} else {
+		rt.Cover("attachments/undesired-deleted")
+		rt.Assert(nB == 1, "attachments/undesired-own-attachment-not-deleted")
+	}
+	if wantC {
+		rt.Cover("attachments/created")
+		rt.Assert(nC == 1, "attachments/desired-attachment-not-created-exactly-once")
+	} else {
+		rt.Assert(nC == 0, "attachments/created-although-not-desired")
+	}
+	rt.Assert(w.Srv.Peek("configmaps", "elsewhere", "b") != nil, "attachments/other-namespace-touched")
+}
+
+// VerifC16_DecoratedOnlyIfSelected: the gate of syncParentObject — a target
+// is decorated only if it satisfies both the label and the annotation selector
+// of its rule, or still carries the controller's finalizer.
+func VerifC16_DecoratedOnlyIfSelected() {
+	w := env.NewWorld()
+	target := env.Thing("ns", "p", "puid")
+	labelOK, annOK := false, false
+	if rt.Bool("has-label") {
+		lv := rt.String("label")
+		env.SetLabel(target, "app", lv)
+		labelOK = lv == "on"
+	}
+	if rt.Bool("has-annotation") {
+		av := rt.String("annotation")
+		env.SetAnnotation(target, "note", av)
+		annOK = av == "yes"
+	}
+	hasOur := rt.Bool("has-our-finalizer")
+	finEnabled := rt.Bool("finalize-hook")
+	if hasOur {
+		verifDCSetFinalizers(target, verifDCFinalizerName)
+	}
+	w.Srv.Put("things", target)
+	answer := &v1.DecoratorHookResponse{Labels: map[string]*string{"decorated": verifDCStrPtr("yes")}}
+	sync := verifDCConstHook(answer)
+	fin := verifDCConstHook(answer)
+	fin.enabled = finEnabled
+	d := verifNewDC(w, verifDCConfig{
+		Rules: []verifDCRule{{Res: env.ThingRes,
+			LabelSelector:      &metav1.LabelSelector{MatchLabels: map[string]string{"app": "on"}},
+			AnnotationSelector: &v1alpha1.AnnotationSelector{MatchAnnotations: map[string]string{"note": "yes"}}}},
+		FinalizeEnabled: finEnabled, Sync: sync, Finalize: fin,
+	})
+	cached := d.SnapshotFromStore()
+	err := d.syncParentObject(cached[0])
+	rt.Assert(err == nil, "gate/error")
+	calls := len(sync.Calls) + len(fin.Calls)
+	rt.Observe("calls", calls)
+	rt.Observe("requests", len(w.Srv.Log))
+	selected := false
+	if labelOK {
+		if annOK {
+			selected = true
+		}
+	}
+	stored := w.Srv.Peek("things", "ns", "p")
+	if selected {
+		rt.Cover("gate/selected")
+		rt.Assert(len(sync.Calls) == 1 && len(fin.Calls) == 0, "gate/selected-target-not-synced")
+		rt.Assert(stored != nil && stored.GetLabels()["decorated"] == "yes", "gate/selected-target-not-decorated")
+	} else if hasOur {
+		rt.Cover("gate/unselected-with-finalizer")
+		if finEnabled {
+			rt.Assert(len(fin.Calls) == 1 && len(sync.Calls) == 0, "gate/unselected-target-with-finalizer-not-finalized")
+			if len(fin.Calls) == 1 {
+				rt.Assert(fin.Calls[0].Finalizing, "gate/finalizing-not-set")
+			}
+		} else {
+			rt.Assert(calls == 0, "gate/hook-called-for-unselected-target")
+			rt.Assert(stored != nil && !verifDCHasFinalizer(stored, verifDCFinalizerName), "gate/leftover-finalizer-kept")
+		}
+	} else {
+		rt.Cover("gate/unselected")
+		rt.Assert(calls == 0, "gate/hook-called-for-unselected-target")
+		rt.Assert(len(w.Srv.Log) == 0, "gate/request-for-unselected-target")
+		_, decorated := stored.GetLabels()["decorated"]
+		rt.Assert(!decorated, "gate/unselected-target-decorated")
+	}
+}
+
+// verifEverything is a selector matching everything (test-side only).
+type verifEverything struct{ labels.Selector }
+
+func (verifEverything) Matches(labels.Labels) bool { return true }
 
 var (
 	_ = commonv2.MakeUniformObjectMap
